@@ -308,7 +308,7 @@ type c03Ctx struct {
 	cjson string
 }
 
-// per-case watchdog: the expected case time is micro- to milliseconds; a case that runs for 120 s is
+// per-case watchdog: the expected case time is micro- to milliseconds; a case that runs for 300 s is
 // reported as a hang (the worker exits, the driver attributes it to the case recorded with r.Cur).
 var c03CaseStart atomic.Int64
 
@@ -316,8 +316,8 @@ func c03Watchdog() {
 	go func() {
 		for {
 			time.Sleep(2 * time.Second)
-			if t := c03CaseStart.Load(); t != 0 && time.Now().UnixNano()-t > int64(120*time.Second) {
-				fmt.Println("c03 watchdog: case exceeded 120 s without returning: test timed out (hang)")
+			if t := c03CaseStart.Load(); t != 0 && time.Now().UnixNano()-t > int64(300*time.Second) {
+				fmt.Println("c03 watchdog: case exceeded 300 s without returning: test timed out (hang)")
 				os.Exit(3)
 			}
 		}
@@ -669,7 +669,6 @@ func c03RunCase(r *vlib.Run, c c03Case) {
 		x.psiM(c03WrapData(prog), c03Par{0, 10, 0, 0}, "sbrk")
 		r.Eval()
 		runtime.GC()
-		debug.FreeOSMemory()
 	case "inner-pages":
 		x.inner(vlib.Unhex(c.Hex), true)
 		r.Eval()
